@@ -1,6 +1,9 @@
 Base/Bytes.vo Base/Bytes.glob Base/Bytes.v.beautified Base/Bytes.required_vo: Base/Bytes.v 
 Base/Bytes.vio: Base/Bytes.v 
 Base/Bytes.vos Base/Bytes.vok Base/Bytes.required_vos: Base/Bytes.v 
+Generated.vo Generated.glob Generated.v.beautified Generated.required_vo: Generated.v Base/Bytes.vo
+Generated.vio: Generated.v Base/Bytes.vio
+Generated.vos Generated.vok Generated.required_vos: Generated.v Base/Bytes.vos
 Model/Resp.vo Model/Resp.glob Model/Resp.v.beautified Model/Resp.required_vo: Model/Resp.v Base/Bytes.vo
 Model/Resp.vio: Model/Resp.v Base/Bytes.vio
 Model/Resp.vos Model/Resp.vok Model/Resp.required_vos: Model/Resp.v Base/Bytes.vos
@@ -13,18 +16,18 @@ Model/Glob.vos Model/Glob.vok Model/Glob.required_vos: Model/Glob.v Base/Bytes.v
 Model/Strings.vo Model/Strings.glob Model/Strings.v.beautified Model/Strings.required_vo: Model/Strings.v Base/Bytes.vo Model/Resp.vo Model/Types.vo Model/Glob.vo
 Model/Strings.vio: Model/Strings.v Base/Bytes.vio Model/Resp.vio Model/Types.vio Model/Glob.vio
 Model/Strings.vos Model/Strings.vok Model/Strings.required_vos: Model/Strings.v Base/Bytes.vos Model/Resp.vos Model/Types.vos Model/Glob.vos
-Model/Lists.vo Model/Lists.glob Model/Lists.v.beautified Model/Lists.required_vo: Model/Lists.v Base/Bytes.vo Model/Resp.vo Model/Types.vo Model/Strings.vo
-Model/Lists.vio: Model/Lists.v Base/Bytes.vio Model/Resp.vio Model/Types.vio Model/Strings.vio
-Model/Lists.vos Model/Lists.vok Model/Lists.required_vos: Model/Lists.v Base/Bytes.vos Model/Resp.vos Model/Types.vos Model/Strings.vos
+Model/Lists.vo Model/Lists.glob Model/Lists.v.beautified Model/Lists.required_vo: Model/Lists.v Base/Bytes.vo Model/Resp.vo Model/Types.vo
+Model/Lists.vio: Model/Lists.v Base/Bytes.vio Model/Resp.vio Model/Types.vio
+Model/Lists.vos Model/Lists.vok Model/Lists.required_vos: Model/Lists.v Base/Bytes.vos Model/Resp.vos Model/Types.vos
 Model/ZSets.vo Model/ZSets.glob Model/ZSets.v.beautified Model/ZSets.required_vo: Model/ZSets.v Base/Bytes.vo Model/Resp.vo Model/Types.vo
 Model/ZSets.vio: Model/ZSets.v Base/Bytes.vio Model/Resp.vio Model/Types.vio
 Model/ZSets.vos Model/ZSets.vok Model/ZSets.required_vos: Model/ZSets.v Base/Bytes.vos Model/Resp.vos Model/Types.vos
 Model/Streams.vo Model/Streams.glob Model/Streams.v.beautified Model/Streams.required_vo: Model/Streams.v Base/Bytes.vo Model/Resp.vo Model/Types.vo
 Model/Streams.vio: Model/Streams.v Base/Bytes.vio Model/Resp.vio Model/Types.vio
 Model/Streams.vos Model/Streams.vok Model/Streams.required_vos: Model/Streams.v Base/Bytes.vos Model/Resp.vos Model/Types.vos
-Model/Server.vo Model/Server.glob Model/Server.v.beautified Model/Server.required_vo: Model/Server.v Base/Bytes.vo Model/Resp.vo Model/Types.vo Model/Glob.vo Model/Strings.vo Model/Lists.vo Model/ZSets.vo Model/Streams.vo
-Model/Server.vio: Model/Server.v Base/Bytes.vio Model/Resp.vio Model/Types.vio Model/Glob.vio Model/Strings.vio Model/Lists.vio Model/ZSets.vio Model/Streams.vio
-Model/Server.vos Model/Server.vok Model/Server.required_vos: Model/Server.v Base/Bytes.vos Model/Resp.vos Model/Types.vos Model/Glob.vos Model/Strings.vos Model/Lists.vos Model/ZSets.vos Model/Streams.vos
+Model/Server.vo Model/Server.glob Model/Server.v.beautified Model/Server.required_vo: Model/Server.v Base/Bytes.vo Generated.vo Model/Resp.vo Model/Types.vo Model/Glob.vo Model/Strings.vo Model/Lists.vo Model/ZSets.vo Model/Streams.vo
+Model/Server.vio: Model/Server.v Base/Bytes.vio Generated.vio Model/Resp.vio Model/Types.vio Model/Glob.vio Model/Strings.vio Model/Lists.vio Model/ZSets.vio Model/Streams.vio
+Model/Server.vos Model/Server.vok Model/Server.required_vos: Model/Server.v Base/Bytes.vos Generated.vos Model/Resp.vos Model/Types.vos Model/Glob.vos Model/Strings.vos Model/Lists.vos Model/ZSets.vos Model/Streams.vos
 Model/RunBase.vo Model/RunBase.glob Model/RunBase.v.beautified Model/RunBase.required_vo: Model/RunBase.v Base/Bytes.vo Model/Resp.vo
 Model/RunBase.vio: Model/RunBase.v Base/Bytes.vio Model/Resp.vio
 Model/RunBase.vos Model/RunBase.vok Model/RunBase.required_vos: Model/RunBase.v Base/Bytes.vos Model/Resp.vos
@@ -34,21 +37,18 @@ Model/RunSrv.vos Model/RunSrv.vok Model/RunSrv.required_vos: Model/RunSrv.v Base
 Model/Run.vo Model/Run.glob Model/Run.v.beautified Model/Run.required_vo: Model/Run.v Base/Bytes.vo Model/Resp.vo Model/RunBase.vo Model/RunSrv.vo
 Model/Run.vio: Model/Run.v Base/Bytes.vio Model/Resp.vio Model/RunBase.vio Model/RunSrv.vio
 Model/Run.vos Model/Run.vok Model/Run.required_vos: Model/Run.v Base/Bytes.vos Model/Resp.vos Model/RunBase.vos Model/RunSrv.vos
-Spec/Collections.vo Spec/Collections.glob Spec/Collections.v.beautified Spec/Collections.required_vo: Spec/Collections.v Base/Bytes.vo Model/Resp.vo Model/Types.vo
-Spec/Collections.vio: Spec/Collections.v Base/Bytes.vio Model/Resp.vio Model/Types.vio
-Spec/Collections.vos Spec/Collections.vok Spec/Collections.required_vos: Spec/Collections.v Base/Bytes.vos Model/Resp.vos Model/Types.vos
 Proofs/BytesFacts.vo Proofs/BytesFacts.glob Proofs/BytesFacts.v.beautified Proofs/BytesFacts.required_vo: Proofs/BytesFacts.v Base/Bytes.vo
 Proofs/BytesFacts.vio: Proofs/BytesFacts.v Base/Bytes.vio
 Proofs/BytesFacts.vos Proofs/BytesFacts.vok Proofs/BytesFacts.required_vos: Proofs/BytesFacts.v Base/Bytes.vos
 Proofs/RespFacts.vo Proofs/RespFacts.glob Proofs/RespFacts.v.beautified Proofs/RespFacts.required_vo: Proofs/RespFacts.v Base/Bytes.vo Model/Resp.vo Proofs/BytesFacts.vo
 Proofs/RespFacts.vio: Proofs/RespFacts.v Base/Bytes.vio Model/Resp.vio Proofs/BytesFacts.vio
 Proofs/RespFacts.vos Proofs/RespFacts.vok Proofs/RespFacts.required_vos: Proofs/RespFacts.v Base/Bytes.vos Model/Resp.vos Proofs/BytesFacts.vos
-Proofs/ListsFacts.vo Proofs/ListsFacts.glob Proofs/ListsFacts.v.beautified Proofs/ListsFacts.required_vo: Proofs/ListsFacts.v Base/Bytes.vo Model/Resp.vo Model/Types.vo Model/Strings.vo Model/Lists.vo Spec/Collections.vo Proofs/BytesFacts.vo
-Proofs/ListsFacts.vio: Proofs/ListsFacts.v Base/Bytes.vio Model/Resp.vio Model/Types.vio Model/Strings.vio Model/Lists.vio Spec/Collections.vio Proofs/BytesFacts.vio
-Proofs/ListsFacts.vos Proofs/ListsFacts.vok Proofs/ListsFacts.required_vos: Proofs/ListsFacts.v Base/Bytes.vos Model/Resp.vos Model/Types.vos Model/Strings.vos Model/Lists.vos Spec/Collections.vos Proofs/BytesFacts.vos
+Proofs/StringsFacts.vo Proofs/StringsFacts.glob Proofs/StringsFacts.v.beautified Proofs/StringsFacts.required_vo: Proofs/StringsFacts.v Base/Bytes.vo Model/Resp.vo Model/Types.vo Model/Glob.vo Model/Strings.vo Proofs/BytesFacts.vo
+Proofs/StringsFacts.vio: Proofs/StringsFacts.v Base/Bytes.vio Model/Resp.vio Model/Types.vio Model/Glob.vio Model/Strings.vio Proofs/BytesFacts.vio
+Proofs/StringsFacts.vos Proofs/StringsFacts.vok Proofs/StringsFacts.required_vos: Proofs/StringsFacts.v Base/Bytes.vos Model/Resp.vos Model/Types.vos Model/Glob.vos Model/Strings.vos Proofs/BytesFacts.vos
 Props/C20.vo Props/C20.glob Props/C20.v.beautified Props/C20.required_vo: Props/C20.v Base/Bytes.vo Model/Resp.vo Proofs/BytesFacts.vo Proofs/RespFacts.vo
 Props/C20.vio: Props/C20.v Base/Bytes.vio Model/Resp.vio Proofs/BytesFacts.vio Proofs/RespFacts.vio
 Props/C20.vos Props/C20.vok Props/C20.required_vos: Props/C20.v Base/Bytes.vos Model/Resp.vos Proofs/BytesFacts.vos Proofs/RespFacts.vos
-Props/C03.vo Props/C03.glob Props/C03.v.beautified Props/C03.required_vo: Props/C03.v Base/Bytes.vo Model/Resp.vo Model/Types.vo Model/Strings.vo Model/Lists.vo Spec/Collections.vo Proofs/BytesFacts.vo Proofs/ListsFacts.vo
-Props/C03.vio: Props/C03.v Base/Bytes.vio Model/Resp.vio Model/Types.vio Model/Strings.vio Model/Lists.vio Spec/Collections.vio Proofs/BytesFacts.vio Proofs/ListsFacts.vio
-Props/C03.vos Props/C03.vok Props/C03.required_vos: Props/C03.v Base/Bytes.vos Model/Resp.vos Model/Types.vos Model/Strings.vos Model/Lists.vos Spec/Collections.vos Proofs/BytesFacts.vos Proofs/ListsFacts.vos
+Props/C01.vo Props/C01.glob Props/C01.v.beautified Props/C01.required_vo: Props/C01.v Base/Bytes.vo Model/Resp.vo Model/Types.vo Model/Glob.vo Model/Strings.vo Proofs/BytesFacts.vo Proofs/StringsFacts.vo
+Props/C01.vio: Props/C01.v Base/Bytes.vio Model/Resp.vio Model/Types.vio Model/Glob.vio Model/Strings.vio Proofs/BytesFacts.vio Proofs/StringsFacts.vio
+Props/C01.vos Props/C01.vok Props/C01.required_vos: Props/C01.v Base/Bytes.vos Model/Resp.vos Model/Types.vos Model/Glob.vos Model/Strings.vos Proofs/BytesFacts.vos Proofs/StringsFacts.vos
